@@ -21,7 +21,7 @@ def lastAfter (ops : Ops Pkg) (last : Option Pkg) (pkg : Pkg) : Option Pkg :=
   match ops.special pkg with
   | .env _ => last
   | .eedInfo => last
-  | .eed => some pkg
+  | .eed => last
   | .none => some pkg
 
 /-- the events a successfully parsed package causes (independent of the buffer) -/
